@@ -149,6 +149,9 @@ type Options struct {
 	ReplayDir string
 	ShrinkBudget time.Duration
 	Canary   int // run the first N runs twice and compare digests
+	// CrashFile: the plan about to be executed is written here first, so that a fatal runtime
+	// error (stack overflow, concurrent map write, deadlock) that kills the worker leaves its input behind.
+	CrashFile string
 }
 
 type ReplayFile struct {
@@ -243,6 +246,13 @@ func Search(t *testing.T, w World, o Options) *WorkerResult {
 		idx := uint64(o.Worker) + n*uint64(o.Workers)
 		seed := RunSeed(o.Seed, o.Property, idx)
 		p := w.Generate(NewRNG(seed), o.Tier, idx)
+		if o.CrashFile != "" {
+			raw, _ := json.Marshal(p)
+			rf := ReplayFile{Property: o.Property, Seed: o.Seed, RunIdx: idx, Plan: raw, OrigSteps: p.NumSteps(),
+				Violation: &Violation{Property: o.Property, Class: "crash", Invariant: "process-survives", Detail: "the worker process died while executing this plan"}}
+			b, _ := json.Marshal(rf)
+			os.WriteFile(o.CrashFile, b, 0o644)
+		}
 		r := NewRun(false)
 		v := SafeExecute(t, w, p, r, o.Property)
 		res.Runs++
